@@ -142,6 +142,7 @@ def run(chk):
         scns += [gen_window_scenario(chk.rng) for _ in range(n // 2)]
         scns += [gen_settings_scenario(chk.rng) for _ in range(n // 4)]
         scns += [gen_long_scenario(chk.rng) for _ in range(n // 5)]
+        scns += [gen_stuck_scenario(chk.rng) for _ in range(n // 8)]
         scns += [gen_empty_pool_scenario(chk.rng) for _ in range(n // 8)]
     res, htbl = evaluate("C14", build, scns)
 
@@ -165,7 +166,7 @@ def run(chk):
                 real = True
                 chk.violation("C14 violated: " + info,
                               "C14 oracle check_C14 rejects the implementation's history: " + info + "\n" + desc)
-        d = first_diff(s, r["impl"], r["model"])
+        d = None if oracle_only(s) else first_diff(s, r["impl"], r["model"])
         if d is not None and not real:
             chk.coverage["disagreements_checked"] += 1
             k, a, b = d
